@@ -49,7 +49,7 @@ func init() { register("C07", func() core.Check { return &c07{} }) }
 
 func (*c07) Level() string { return "exploration" }
 func (*c07) Rule() string {
-	return "inputs, deterministic from the seed: seed corpus (every .knut/.prices file of the repository, the string literals of the parser/scanner/printer tests, hand-written snippets, generated journals in canonical and in random layouts) x {verbatim, truncation at every byte offset, 1-3 stacked mutations out of: delete/duplicate/swap line or token, join tokens, indent, comment insertion, bit flip, insertion/replacement of invalid UTF-8 (lone, overlong, surrogate, truncated, >U+10FFFF), U+FFFD, NUL, BOM, CR, FF, exotic blanks and digits, line-end rewrites (CRLF, CR, LFCR), long tokens (64 KB quick, 1 MB thorough), unterminated quotes, '@' addon stacks, splices, repetition}, random token and directive sequences, random byte strings of length 0-64; each input is parsed in-process with the call sequence of syntax.ParseFile under recover and a watchdog, and the monitor judges the returned error chain (positions inside the text, renderable) or tree (ranges, nesting, order, Extract, lexical classes, gaps, re-concatenation); non-trivial = input that is not a verbatim corpus file and either parses to >=1 directive or fails with a positioned error after >=1 non-blank byte; distinct = hash of the input bytes"
+	return "inputs, deterministic from the seed: seed corpus (every .knut/.prices file of the repository, the string literals of the parser/scanner/printer tests, hand-written snippets, generated journals in canonical and in random layouts) x {verbatim, truncation at every byte offset, 1-3 stacked mutations out of: delete/duplicate/swap line or token, join tokens, indent, comment insertion, bit flip, insertion/replacement of invalid UTF-8 (lone, overlong, surrogate, truncated, >U+10FFFF), U+FFFD, NUL, BOM, CR, FF, exotic blanks and digits, line-end rewrites (CRLF, CR, LFCR), long tokens (64 KB quick, 1 MB thorough), unterminated quotes, '@' addon stacks, splices, repetition}, random token and directive sequences, random byte strings of length 0-64; each input is parsed in-process with the call sequence of syntax.ParseFile under recover and a watchdog, and the monitor judges the returned error chain (ranges inside the text, renderable; the rendered line:column recomputed from the end offset - newlines before it, characters since the last one - and present in Error()) or tree (ranges, nesting, order, Extract, lexical classes, gaps, re-concatenation); non-trivial = input that is not a verbatim corpus file and either parses to >=1 directive or fails with a positioned error after >=1 non-blank byte; distinct = hash of the input bytes"
 }
 
 func repoRoot() string {
@@ -404,6 +404,7 @@ func (k *c07) one(c *core.Ctx, i int, dir string, loc *c07local, text, mut strin
 		}
 	} else {
 		loc.count("rejected", 1)
+		loc.count("error_positions_recomputed", st.LocChecked)
 		var cl []string
 		for _, m := range st.ErrChain {
 			cl = append(cl, syn.ErrorClass(m))
